@@ -76,8 +76,8 @@ Stale   == [obj |-> "stale", parts |-> <<>>, dir |-> "-"]
 NoStdin == [obj |-> "nostdin", parts |-> <<>>, dir |-> "-"]
 Blank(x) == [x EXCEPT !.dir = IF x.dir = "-" THEN "-" ELSE "@"]
 
-JobSeq == LET objs == Produced(c) \cap FileObjs
-          IN  CHOOSE sq \in [1..Cardinality(objs) -> objs] : \A i, j \in DOMAIN sq : sq[i] = sq[j] => i = j
+InProduced(o) == o \in Produced(c)
+JobSeq == SelectSeq(<<"code", "refl", "fast", "extra">>, InProduced)
 \* the files the persist stage is given; folded onto MaxJobs
 Jobs == IF Len(JobSeq) > MaxJobs THEN SubSeq(JobSeq, 1, MaxJobs) ELSE JobSeq
 
@@ -97,19 +97,23 @@ Pick == /\ pc = "root"
         /\ pc' = "env"
         /\ UNCHANGED <<run, dir, at, walk, stdin, first, n, st, ret>>
 
-\* an execution starts: the caller names an output directory
+\* does the current execution have a choice at site s
+Choice(s) == Active(s, c) /\ Folded(s) >= 2 /\ Unordered(s, c)
+\* the next site at or after index i at which there is a choice (Len(SiteSeq) + 1: none)
+NextAt(i) == LET js == {j \in i..Len(SiteSeq) : Choice(SiteSeq[j])}
+             IN  IF js = {} THEN Len(SiteSeq) + 1 ELSE CHOOSE j \in js : \A k \in js : j <= k
+
+\* an execution starts: the caller names an output directory; sites without a choice are walked in the one possible order
 ChooseDir == /\ pc = "env"
              /\ dir' \in DirNames
-             /\ pc' = "emit" /\ at' = 1 /\ walk' = [s \in Sites |-> <<>>] /\ stdin' = NoStdin
+             /\ pc' = "emit" /\ at' = NextAt(1) /\ stdin' = NoStdin
+             /\ walk' = [s \in Sites |-> Ident(IF Active(s, c) THEN Folded(s) ELSE 0)]
              /\ UNCHANGED <<p, c, run, disk, first, n, st, ret>>
 
-\* the execution passes the next site: an unordered collection is walked in ANY order
+\* the execution passes the next site with a choice: an unordered collection is walked in ANY order
 Pass == /\ pc = "emit" /\ at <= Len(SiteSeq)
-        /\ LET s == SiteSeq[at] k == Folded(s) IN
-             IF Active(s, c) /\ k >= 2 /\ Unordered(s, c)
-               THEN \E w \in Perms(k) : walk' = [walk EXCEPT ![s] = w]
-               ELSE walk' = [walk EXCEPT ![s] = Ident(IF Active(s, c) THEN k ELSE 0)]
-        /\ at' = at + 1
+        /\ \E w \in Perms(Folded(SiteSeq[at])) : walk' = [walk EXCEPT ![SiteSeq[at]] = w]
+        /\ at' = NextAt(at + 1)
         /\ UNCHANGED <<pc, p, c, run, dir, stdin, disk, first, n, st, ret>>
 
 \* all sites passed: the plugin has been sent its request, the persist stage gets its jobs
